@@ -129,15 +129,19 @@ static void continuous_families(unsigned long long& unit)
 			for(double my : {1.0, 1e3})
 				for(double sx : {1e-3, 2.0})
 					for(double sy : {0.5, 50.0})
+					{
+						// one pair of parameter objects for all 289 evaluations (they are passed by reference and must come back unchanged)
+						std::pair<double, double> mean{mx, my}, sig{sx, sy};
 						for(int i = -8; i <= 8; i++)
 							for(int j = -8; j <= 8; j++)
 							{
 								double x = mx + sx * i / 2.0, y = my + sy * j / 2.0;
-								std::pair<double, double> mean{mx, my}, sig{sx, sy};
 								double p2 = PDF_Gauss_2D(x, y, mean, sig), pp = PDF_Gauss(x, mx, sx) * PDF_Gauss(y, my, sy);
 								g_cases++;
 								if(!(std::fabs(p2 - pp) <= 16 * mc::U_ * pp * (1 + i * i + j * j) + 1e-300)) fail("continuous", "Gauss_2D(" + mc::dec(mx) + "," + mc::dec(my) + "," + mc::dec(sx) + "," + mc::dec(sy) + "),x=" + mc::dec(x) + ",y=" + mc::dec(y), "gauss_2d_not_product_of_1d", "PDF_Gauss_2D = " + mc::dec(p2) + " product of the 1D densities " + mc::dec(pp));
 							}
+						if(!(mean.first == mx && mean.second == my && sig.first == sx && sig.second == sy)) fail("continuous", "Gauss_2D(" + mc::dec(mx) + "," + mc::dec(my) + "," + mc::dec(sx) + "," + mc::dec(sy) + ")", "gauss_2d_changes_its_parameters", "mean/sigma objects differ after the calls");
+					}
 	// exponential and Maxwell-Boltzmann
 	for(double m : {1e-3, 1.0, 50.0})
 	{
@@ -274,7 +278,9 @@ static void discrete_families(unsigned long long& unit)
 static void likelihoods(unsigned long long& unit)
 {
 	const std::vector<double> sig = {0.0, 0.5, 3.0, 40.0}, bkg = {0.0, 0.1, 7.5};
-	const std::vector<unsigned long> obs = {0, 1, 4, 30, 200};
+	std::vector<unsigned long> obs;
+	for(unsigned long n = 0; n <= 260; n++) obs.push_back(n);	// every count up to 260, then a few large ones
+	for(unsigned long n : {300ul, 500ul, 1000ul}) obs.push_back(n);
 	if(!mc::mine(unit++)) return;
 	for(double s : sig)
 		for(double b : bkg)
@@ -285,7 +291,9 @@ static void likelihoods(unsigned long long& unit)
 				double L = Likelihood_Poisson(s, n, b), lL = Log_Likelihood_Poisson(s, n, b), pm = PMF_Poisson(s + b, n);
 				g_cases++;
 				if(!(std::fabs(L - pm) <= 1e-12 * pm * (n + 10))) fail("likelihood", key, "likelihood_not_pmf_at_signal_plus_background", "Likelihood = " + mc::dec(L) + " PMF = " + mc::dec(pm));
-				if(!(std::fabs(lL - std::log(pm)) <= 1e-12 * (std::fabs(std::log(pm)) + n + 1))) fail("likelihood", key, "log_likelihood_not_log", "Log_Likelihood = " + mc::dec(lL) + " log PMF = " + mc::dec(std::log(pm)));
+				// (where the mass function itself is subnormal or underflows, its logarithm is taken from the closed form instead)
+				double lref = pm > 1e-290 ? std::log(pm) : (double)(n * logl((ld)s + b) - ((ld)s + b) - lgammal((ld)n + 1));
+				if(!(std::fabs(lL - lref) <= 1e-12 * (std::fabs(lref) + n + 1))) fail("likelihood", key, "log_likelihood_not_log", "Log_Likelihood = " + mc::dec(lL) + " log PMF = " + mc::dec(lref));
 			}
 	// binned: product over bins, 1..4 bins, all tuples over small alphabets
 	const std::vector<double> ps = {0.5, 3.0}, bs = {0.0, 1.5};
@@ -318,6 +326,20 @@ static void likelihoods(unsigned long long& unit)
 			if(zero && !mc::same_bits(Likelihood_Poisson_Binned(pred, ob), L)) fail("likelihood", key, "default_background_differs", "empty background list differs from zeros");
 		} while(P.next());
 	}
+	// every observed count up to 260 in one bin of a three-bin experiment
+	for(unsigned long n = 0; n <= 260; n++)
+		for(double s : {0.5, 3.0, 40.0})
+		{
+			std::vector<double> pred{s, 1.5, 2.0}, back{0.1, 0.0, 1.5};
+			std::vector<unsigned long> ob{n, 2, (n * 3) % 7};
+			ld prod = 1, lsum = 0;
+			for(int i = 0; i < 3; i++) { double pm = PMF_Poisson(pred[i] + back[i], ob[i]); prod *= pm; lsum += logl((ld)pm); }
+			double L = Likelihood_Poisson_Binned(pred, ob, back), lL = Log_Likelihood_Poisson_Binned(pred, ob, back);
+			g_cases++;
+			std::string key = "three_bins,s=" + mc::dec(s) + ",n=" + std::to_string(n);
+			if(prod > 1e-290L && !(fabsl(L - prod) <= 1e-11L * prod * (1 + n / 10.0L))) fail("likelihood", key, "binned_likelihood_not_product", "binned = " + mc::dec(L) + " product = " + mc::dec((double)prod));
+			if(prod > 1e-290L && !(fabsl(lL - lsum) <= 1e-11L * (fabsl(lsum) + n + 1))) fail("likelihood", key, "binned_log_likelihood_not_sum", "binned log = " + mc::dec(lL) + " sum of logs = " + mc::dec((double)lsum));
+		}
 	// many bins: the logarithm is the sum over bins at any number of bins (a log of the product underflows below exp(-745))
 	for(int bins : {30, 200, 500, 2000})
 	{
@@ -344,7 +366,7 @@ static void likelihoods(unsigned long long& unit)
 static void kde(unsigned long long& unit)
 {
 	for(int n : {2, 3, 5, 10, 30})
-		for(int pat = 0; pat < 3; pat++)
+		for(int pat = 0; pat < 5; pat++)	// patterns 3 and 4: digitised readings, most of the sample shares one value
 			for(int wt = 0; wt < 2; wt++)
 				for(int win = 0; win < 2; win++)
 					for(int bwm = 0; bwm < 2; bwm++)
@@ -353,7 +375,7 @@ static void kde(unsigned long long& unit)
 						std::vector<DataPoint> data;
 						for(int i = 0; i < n; i++)
 						{
-							double v = pat == 0 ? 1.0 + 3.0 * i / n : pat == 1 ? 2.5 + std::sin(1.7 * i) * 1.2 + 0.01 * i : 0.3 + 4.0 * ((i * i * 7 + 3) % 11) / 11.0 + 0.001 * i;
+							double v = pat == 3 ? (i % 4 ? 2.0 : 1.0 + (i / 4) % 3) : pat == 4 ? (i == n - 1 ? 3.5 : 1.5) : pat == 0 ? 1.0 + 3.0 * i / n : pat == 1 ? 2.5 + std::sin(1.7 * i) * 1.2 + 0.01 * i : 0.3 + 4.0 * ((i * i * 7 + 3) % 11) / 11.0 + 0.001 * i;
 							data.push_back(DataPoint(v, wt ? 0.5 + (i % 3) : 1.0));
 						}
 						double lo = win ? 0.0 : -1.0, hi = win ? 5.0 : 7.0, bw = bwm ? 0.35 : 0.0;
